@@ -94,6 +94,15 @@ theorem convert_accepts (edToMont : Bytes → Option Bytes) (ed u : Bytes) (h : 
     · intro h1; injection h1
     · intro h1; rw [h1]
 
+/-- "Compared ignoring the sign bit" is a comparison on a masked COPY of byte 31: neither
+`IsEdLowOrder` nor `PublicKeyToCurve25519` contains a statement that writes through its byte-slice
+parameter (regenerated from the source on every run: index / slice assignments, `++`/`--`, `copy`
+into it, `scrub.Scrub` of it; a local alias of the parameter is refused by the translator). The
+pure functions `isEdLowOrder` / `publicKeyToCurve25519` of the model therefore stand for the whole
+effect of a call: the caller's key is the same key afterwards (an in-place `ge[31] &= 0x7f` would
+turn A into −A). The engine checks the same on every call of the real functions. -/
+theorem conversion_does_not_write_its_input : Gen.EdBlacklist.inputWrites = [] := by decide
+
 /-- The model used inside the encryption skeleton is this function. -/
 theorem pubToX_run (P : Encrypt.Prims) (ed : Bytes) (k : Option Bytes → Encrypt.Prog (Outcome Bytes))
     (h : ed.length = 32) :
